@@ -575,4 +575,156 @@ Proof.
       * left. reflexivity.
 Qed.
 
+(* ================================================================== Part D: the id map *)
+Notation idmapU := (idmap U).
+
+Lemma mset_absent (m : idmapU) t s : ~ In t (map fst m) -> mset ueqb m t s = m ++ [(t, s)].
+Proof.
+  induction m as [|[t' s'] r IH]; intros H; cbn [mset app]; [reflexivity|].
+  cbn [map fst] in H. destruct (tid_eqb ueqb t' t) eqn:E.
+  - apply tid_eqb_eq in E. subst. exfalso. apply H. left. reflexivity.
+  - f_equal. apply IH. intros Hin. apply H. right. exact Hin.
+Qed.
+
+Lemma mget_in (m : idmapU) t s : NoDup (map fst m) -> In (t, s) m -> mget ueqb m t = Ok s.
+Proof.
+  induction m as [|[t' s'] r IH]; intros Hnd Hin; [destruct Hin|].
+  cbn [map fst] in Hnd. inversion Hnd as [|x l Hx Hr]; subst. cbn [mget].
+  destruct (tid_eqb ueqb t' t) eqn:E.
+  - apply tid_eqb_eq in E. subst t'. destruct Hin as [Hin|Hin]; [inversion Hin; reflexivity|].
+    exfalso. apply Hx. apply in_map_iff. exists (t, s). split; [reflexivity|exact Hin].
+  - destruct Hin as [Hin|Hin]; [inversion Hin; subst; rewrite (proj2 (tid_eqb_eq t t) eq_refl) in E; discriminate|].
+    apply IH; assumption.
+Qed.
+
+(* the value of a key (Python: d[key]); [] stands for KeyError and never shows in a result *)
+Definition mval (m : idmapU) (t : tidU) : str := match mget ueqb m t with Ok s => s | Err _ => [] end.
+
+Lemma mval_in (m : idmapU) t s : NoDup (map fst m) -> In (t, s) m -> mval m t = s.
+Proof. intros Hnd Hin. unfold mval. rewrite (mget_in _ _ _ Hnd Hin). reflexivity. Qed.
+
+Lemma mval_keys (m : idmapU) : NoDup (map fst m) ->
+  forall sub, incl sub m -> map (mval m) (map fst sub) = map snd sub.
+Proof.
+  intros Hnd sub. induction sub as [|[t s] r IH]; intros Hi; cbn [map fst snd]; [reflexivity|].
+  f_equal.
+  - apply mval_in; [exact Hnd|apply Hi; left; reflexivity].
+  - apply IH. intros x Hx. apply Hi. right. exact Hx.
+Qed.
+
+Lemma combine_fst {S T} (a : list S) : forall b : list T, List.length a = List.length b -> map fst (combine a b) = a.
+Proof.
+  induction a as [|x a IH]; intros [|y b] H; cbn in *; try reflexivity; try discriminate.
+  f_equal. apply IH. lia.
+Qed.
+Lemma combine_snd {S T} (a : list S) : forall b : list T, List.length a = List.length b -> map snd (combine a b) = b.
+Proof.
+  induction a as [|x a IH]; intros [|y b] H; cbn in *; try reflexivity; try discriminate.
+  f_equal. apply IH. lia.
+Qed.
+
+(* what the loop over the rows makes of the map *)
+Lemma build_map_spec nb : forall (rows : list trow) idx (m m' : idmapU),
+  NoDup (map r_id rows) ->
+  (forall t, In t (map r_id rows) -> ~ In t (map fst m)) ->
+  build_map ueqb nb rows idx m = Ok m' ->
+  exists news, List.length (map r_id rows) = List.length news
+    /\ m' = m ++ combine (map r_id rows) news
+    /\ (nb = true -> news = map (fun i => dec_of_nat (S i)) (seq idx (List.length rows)))
+    /\ (nb = false -> NoDup (map snd m) -> NoDup (map snd m ++ news)).
+Proof.
+  induction rows as [|r rest IH]; intros idx m m' Hnd Hdis H; cbn [build_map] in H.
+  - inversion H; subst. exists []. cbn. rewrite !app_nil_r. repeat split; auto.
+  - cbn [map] in Hnd, Hdis. inversion Hnd as [|x l Hx Hrest]; subst.
+    destruct (if nb then Ok (dec_of_nat (S idx))
+              else (do base <- tid_short (r_id r); fresh_id base (map snd m))) as [new|e] eqn:En;
+      cbn [bind] in H; [|discriminate].
+    rewrite mset_absent in H by (apply Hdis; left; reflexivity).
+    apply IH in H; [|exact Hrest|].
+    2:{ intros t Ht. rewrite map_app. cbn [map fst]. intros Hin. apply in_app_or in Hin.
+        destruct Hin as [Hin|[Hin|[]]]; [apply (Hdis t); [right; exact Ht|exact Hin]|subst; exact (Hx Ht)]. }
+    destruct H as [news [Hlen [Hm' [Hnum Hrd]]]].
+    exists (new :: news). split; [cbn [map List.length]; lia|]. split; [|split].
+    + rewrite Hm', <- app_assoc. reflexivity.
+    + intros Hnb. subst nb. inversion En; subst. cbn [List.length seq map]. f_equal. apply Hnum. reflexivity.
+    + intros Hnb Hv. subst nb.
+      destruct (tid_short (r_id r)) as [base|e]; cbn [bind] in En; [|discriminate].
+      apply fresh_id_fresh in En.
+      assert (Hv1 : NoDup (map snd (m ++ [(r_id r, new)]))).
+      { rewrite map_app. cbn [map snd]. apply NoDup_app_intro; [exact Hv|constructor; [intros []|constructor]|].
+        intros x0 Hx0 [Hx1|[]]. subst. exact (En Hx0). }
+      specialize (Hrd eq_refl Hv1). rewrite map_app, <- app_assoc in Hrd. exact Hrd.
+Qed.
+
+(* ---- the result of the remapping is a relabelling *)
+Definition relabel {I J} (f : I -> J) (r : row U I) : row U J :=
+  {| r_id := f (r_id r); r_type := r_type r;
+     r_edges := map (fun e => {| e_from := f (e_from e); e_cond := e_cond e |}) (r_edges r);
+     r_goto := map f (r_goto r); r_pay := r_pay r |}.
+
+Lemma mapM_fun {E S T} (f : S -> result E T) (g : S -> T) :
+  (forall x y, f x = Ok y -> y = g x) -> forall l l', mapM f l = Ok l' -> l' = map g l.
+Proof.
+  intros Hf l. induction l as [|x r IH]; intros l' H; cbn [mapM] in H; [inversion H; reflexivity|].
+  destruct (f x) as [y|e] eqn:Ex; [|discriminate].
+  destruct (mapM f r) as [ys|e]; [|discriminate].
+  inversion H; subst. cbn [map]. f_equal; [apply Hf, Ex|apply IH; reflexivity].
+Qed.
+
+Lemma mget_mval (m : idmapU) t s : mget ueqb m t = Ok s -> s = mval m t.
+Proof. intros H. unfold mval. rewrite H. reflexivity. Qed.
+
+Lemma remap_row_relabel (m : idmapU) r r' : remap_row ueqb m r = Ok r' -> r' = relabel (mval m) r.
+Proof.
+  unfold remap_row. intros H.
+  destruct (mget ueqb m (r_id r)) as [id|e] eqn:Ei; cbn [bind] in H; [|discriminate].
+  destruct (mapM (mget ueqb m) (r_goto r)) as [gt|e] eqn:Eg; cbn [bind] in H; [|discriminate].
+  destruct (mapM (remap_edge ueqb m) (r_edges r)) as [es|e] eqn:Ee; cbn [bind] in H; [|discriminate].
+  inversion H; subst. unfold relabel. f_equal.
+  - apply mget_mval, Ei.
+  - refine (mapM_fun (remap_edge ueqb m) _ _ _ _ Ee).
+    intros x y Hxy. unfold remap_edge in Hxy.
+    destruct (mget ueqb m (e_from x)) as [fr|e] eqn:Ef; cbn [bind] in Hxy; [|discriminate].
+    inversion Hxy; subst. f_equal. apply mget_mval, Ef.
+  - apply (mapM_fun _ _ (mget_mval m) _ _ Eg).
+Qed.
+
+Definition start_id : str := lit "start".
+
+(* C17-5.  [to_rows] relabels the temporary rows by a function that maps "start" to "start",
+   is injective on the ids in use, and under which every reference names a row. *)
+Theorem to_rows_relabelling nb nodes rows :
+  to_rows ueqb nb nodes = Ok rows ->
+  exists (tmp : list trow) (f : tidU -> str),
+    to_rows_tmp ueqb nodes = Ok tmp /\ rows = map (relabel f) tmp
+    /\ f TStart = start_id
+    /\ NoDup (map f (TStart :: map r_id tmp))
+    /\ Refs tmp []
+    /\ (nb = true -> map f (map r_id tmp) = map dec_of_nat (seq 1 (List.length tmp))).
+Proof.
+  unfold to_rows. intros H.
+  destruct (to_rows_tmp ueqb nodes) as [tmp|e] eqn:Et; cbn [bind] in H; [|discriminate].
+  destruct (build_map ueqb nb tmp 0 idmap0) as [m|e] eqn:Em; cbn [bind] in H; [|discriminate].
+  apply to_rows_tmp_ids in Et. destruct Et as [Hnd [Hns Hrefs]].
+  apply build_map_spec in Em; [|exact Hnd|].
+  2:{ intros t Ht [Hin|[]]. cbn [fst] in Hin. subst t. exact (Hns Ht). }
+  destruct Em as [news [Hlen [Hm [Hnum Hrd]]]].
+  assert (Hkeys : NoDup (map fst m)).
+  { rewrite Hm, map_app, (combine_fst _ _ Hlen). cbn [idmap0 map fst app]. constructor; assumption. }
+  assert (Hstart : mval m TStart = start_id).
+  { apply mval_in; [exact Hkeys|]. rewrite Hm. left. reflexivity. }
+  assert (Hvals : map (mval m) (map r_id tmp) = news).
+  { rewrite <- (combine_fst _ _ Hlen) at 1. rewrite (mval_keys m Hkeys).
+    - apply combine_snd, Hlen.
+    - rewrite Hm. apply incl_appr, incl_refl. }
+  exists tmp, (mval m). split; [reflexivity|]. split; [|split; [exact Hstart|split; [|split; [exact Hrefs|]]]].
+  - apply (mapM_fun _ _ (remap_row_relabel m) _ _ H).
+  - cbn [map]. rewrite Hstart, Hvals. destruct nb.
+    + rewrite (Hnum eq_refl). constructor.
+      * intros Hin. apply in_map_iff in Hin. destruct Hin as [i [Hi _]]. exact (dec_of_nat_not_start _ Hi).
+      * apply NoDup_map_inj; [|apply seq_NoDup]. intros a b _ _ Hab. apply dec_of_nat_inj in Hab. lia.
+    + apply (Hrd eq_refl). cbn. constructor; [intros []|constructor].
+  - intros Hnb. rewrite Hvals, (Hnum Hnb), <- seq_shift, map_map. reflexivity.
+Qed.
+
 End RowIds.
